@@ -1201,3 +1201,48 @@ func (s *Shape) HasEmptyDef() bool {
 	})
 	return found
 }
+
+// DropKey removes one key from one map[string]any node of a raw tree (presence rules then decide).
+func DropKey(r *wk.Rand, v any) (any, bool) {
+	var maps []map[string]any
+	var walk func(cur any)
+	walk = func(cur any) {
+		switch x := cur.(type) {
+		case []any:
+			for _, e := range x {
+				walk(e)
+			}
+		case map[string]any:
+			if len(x) > 0 {
+				maps = append(maps, x)
+			}
+			for _, e := range x {
+				walk(e)
+			}
+		case map[any]any:
+			for _, e := range x {
+				walk(e)
+			}
+		}
+	}
+	walk(v)
+	if len(maps) == 0 {
+		return v, false
+	}
+	m := wk.Pick(r, maps)
+	keys := make([]string, 0, len(m))
+	for k := range m {
+		keys = append(keys, k)
+	}
+	sortStrings(keys)
+	delete(m, wk.Pick(r, keys))
+	return v, true
+}
+
+func sortStrings(s []string) {
+	for i := 1; i < len(s); i++ {
+		for j := i; j > 0 && s[j] < s[j-1]; j-- {
+			s[j], s[j-1] = s[j-1], s[j]
+		}
+	}
+}
